@@ -839,6 +839,22 @@ func checkEOFConditionX(c *Ctx, fn *ssa.Function, call *ssa.Call, rule, name str
 	}
 }
 
+// isEntryStore: a store of a NAME entry into an element of a slice (`nameAttrs[i] = &sshFxpNameAttr{…}`).
+func isEntryStore(in ssa.Instruction) bool {
+	st, ok := in.(*ssa.Store)
+	if !ok {
+		return false
+	}
+	ia, ok := st.Addr.(*ssa.IndexAddr)
+	if !ok {
+		return false
+	}
+	if _, isArr := ia.X.(*ssa.Alloc); isArr {
+		return false // the one-element array behind append(x, e)
+	}
+	return typeName(st.Val.Type()) == "sshFxpNameAttr"
+}
+
 // checkPageTagging: the page that receives a packet is filed under the order id that packet will get (shared by C01 and C18).
 func checkPageTagging(c *Ctx, rule string) {
 	p := c.P
@@ -1398,6 +1414,10 @@ func checkListingCursor(c *Ctx) {
 						if cc := callOf(in); cc != nil && builtinName(cc) == "append" {
 							appendLoop = l
 						}
+						// … or fills a reply slice made to measure, element by element
+						if isEntryStore(in) {
+							appendLoop = l
+						}
 					}
 				}
 			}
@@ -1419,7 +1439,7 @@ func checkListingCursor(c *Ctx) {
 				}
 				mnA, mxA, okA := countLoopIter(appendLoop, func(in ssa.Instruction) bool {
 					cc := callOf(in)
-					return cc != nil && builtinName(cc) == "append"
+					return (cc != nil && builtinName(cc) == "append") || isEntryStore(in)
 				})
 				c.check(okA && mnA == 1 && mxA == 1, "R1", "one reply entry per listed entry", p.Pos(appendLoop.head.Instrs[0].Pos()), "one append per element", "an element of the batch is appended more than once (or the loop does not append)")
 			}
